@@ -50,6 +50,8 @@ pub use compute_expression::*;
 pub use configuration_error::RuleConfigurationError;
 pub use convert_index_to_field::*;
 pub use convert_luau_number::*;
+#[cfg(feature = "verif")]
+pub(crate) use convert_luau_number::verif_process_number as verif_convert_luau_number;
 pub use convert_require::*;
 pub use convert_square_root_call::*;
 pub use empty_do::*;
